@@ -29,6 +29,37 @@ CHECKS = {
         ref="DESIGN.md 4 C17"),
 }
 
+CHECKS.update({
+    "C01": dict(
+        text="Round trip decided compositionally by solver queries over the real code: block_builder.c->block.c on fully symbolic entries; the real writer's file (every configuration axis: restart interval, block size, foreign prefix, compression id and level through a ghost codec) decoded by an independent decoder to exactly the added list; the real reader returning exactly what an independent encoder laid out (v1/v2, all legal encodings). Value bytes and all key bytes not deciding order are solver variables.",
+        note="Writer and reader halves meet at the format description (independent decoder/encoder in the harness), not in one query; real codecs are C15; thread pool is C13; mtbl_dump's option filter is checked separately when built. Bounds: <= 6 entries, keys <= 3 bytes.",
+        ref="DESIGN.md 4 C01"),
+    "C02": dict(
+        text="Solver verdict for reader_get / get_prefix / get_range: for tables with symbolic keys, values and separators and for concrete tables with awkward keys (empty key, proper prefixes, 0xff, restart runs), every query string of 0..2 bytes yields exactly the oracle's list (then sticky failure); queries beyond the last index key checked for concrete queries.",
+        note="Tables <= 3 blocks / 5 entries, keys and queries <= 2 bytes; reader struct built white-box in the state mtbl_reader_init_fd leaves (C19/C11 cover init); the constructor's give-up path is asserted unreachable for in-range queries and cut.",
+        ref="DESIGN.md 4 C02"),
+    "C03": dict(
+        text="Histories of next/seek on all four reader iterator kinds, checked against a list oracle after every call: from every position a concrete pre-history reaches on six tables, the next seek's target bytes are solver variables (all (position,target) pairs), plus symbolic-key tables with one symbolic seek; includes other-iterator interference and validity of handed-out buffers.",
+        note="<= 3 blocks x 3 entries, keys <= 2 bytes, <= 9 operations, at most two symbolic seeks per history (formula doubles per symbolic seek); found F1 (fixed).",
+        ref="DESIGN.md 4 C03"),
+    "C08": dict(
+        text="Add histories in arbitrary order with repeats (refusals before/after block cuts) run through the real writer and judged by the independent decoder, plus the ordering gate for a completely arbitrary key (0..3 symbolic bytes) as one step from four pre-states, plus the open(2) flags of mtbl_writer_init.",
+        note="Order-deciding key bytes are concrete in the histories (otherwise the file layout becomes symbolic); arbitrary-key steps exclude the case where the same step cuts a block.",
+        ref="DESIGN.md 4 C08"),
+    "C09": dict(
+        text="Every file the real writer produces in the shape table is decoded by an independent decoder inside the query: framing, CRC-of-stored-bytes (uninterpreted CRC with call log), contiguity from the initial offset, index keys in [last, next first), restart cadence, longest-common-prefix elision, block-size rule in both directions, trailer layout. Verdict is the solver's over all symbolic value/key/CRC bytes of a shape.",
+        note="Translation-validation flavour, bounded: <= 6 entries, 0..3 block cuts; decoder is part of the trusted base; order-deciding key bytes concrete.",
+        ref="DESIGN.md 4 C09"),
+    "C10": dict(
+        text="The nine trailer fields written by the real writer equal the harness's own count of accepted entries, decoded blocks and byte ranges (incl. refused adds, empty table, foreign prefix), metadata_write/read are exact inverses on nine symbolic 64-bit fields, and the accessors return their own field on reference-encoded files.",
+        note="Pooled writers: C13; mtbl_info formatting not encoded.",
+        ref="DESIGN.md 4 C10"),
+    "C11": dict(
+        text="Files laid out by an independent reference encoder (v1/v2, every restart-flag subset, maximal and non-maximal sharing, separators anywhere in the legal interval, index with/without restarts, foreign prefix incl. two-byte varint offsets, compression ids via ghost codec, with/without checksum verification) are read by the real reader through the real mtbl_reader_init_fd: full iteration, lookups and a seek return exactly the encoded entries; all content bytes symbolic.",
+        note="<= 3 blocks / 5 entries; 64-bit restart arrays (blocks > 4 GiB) and >=128-byte keys are outside; encoder is part of the trusted base.",
+        ref="DESIGN.md 4 C11"),
+})
+
 NOT_APPLICABLE = {
     "C14": "needs an engine that explores/over-approximates all executions of pointer-sharing pthread code and decides happens-before; CBMC 6.11 stops on threadpool.c ('pointer handling for concurrency is unsound'), no other such engine is installed (DESIGN.md 4 C14)",
 }
